@@ -169,6 +169,29 @@ def check(run):
                f"{m}: runtime float tableau differs from the rational reading by more than 1 ulp")
         except Exception as e:
             run.oblig(f"link:get_tableau:float_equals_rational:{m}", fn, "B(bounded)", "undecided", detail=repr(e))
+    # ---- call history on the real object: the derived expansion is a value, not shared state - asking again after the first answer was modified in place
+    # (callers scale it by dt^k) still gives 1/k!
+    try:
+        from renormalizer.utils.rk import RungeKutta as _RK
+        for m in method_list:
+            oid = f"link:runge_kutta_ti_coefficient:second_call_after_the_first_result_was_changed:{m}"
+            rk_ = _RK(m)
+            c1 = np.asarray(rk_.runge_kutta_ti_coefficient())
+            snapshot = np.array(c1, dtype=float, copy=True)
+            try:
+                c1 *= 0.5
+            except Exception:
+                pass
+            c2 = np.asarray(rk_.runge_kutta_ti_coefficient(), dtype=float)
+            rows = c2.reshape(len(tuple(rk_.order)), -1)
+            ok = c2.shape == snapshot.shape and np.array_equal(c2, snapshot) and all(abs(rows[r][k] - 1.0 / math.factorial(k)) <= 1e-14 for r, p_ in enumerate(rk_.order) for k in range(int(p_) + 1))
+            run.oblig(oid, "RungeKutta.runge_kutta_ti_coefficient", "B(bounded)", "discharged" if ok else "violated", "closed check")
+            if not ok:
+                run.violation(oid, "RungeKutta.runge_kutta_ti_coefficient", f"{m}: after scaling the first result in place the second call returns {c2.reshape(-1)[:6].tolist()} instead of {snapshot.reshape(-1)[:6].tolist()}",
+                              fields={"method": m}, replay={"method": m, "replay": "python: rk = RungeKutta(%r); c = rk.runge_kutta_ti_coefficient(); c *= 0.5; rk.runge_kutta_ti_coefficient()" % m,
+                                                             "second_call": c2.reshape(-1).tolist(), "first_call_before_scaling": snapshot.reshape(-1).tolist()})
+    except Exception as e:
+        run.oblig("link:runge_kutta_ti_coefficient:second_call_after_the_first_result_was_changed", "RungeKutta.runge_kutta_ti_coefficient", "B(bounded)", "undecided", detail=repr(e)[:300])
     # ---- delivery: the tableau an EvolveConfig hands to the integrators (whatever options it was built with) has the order it advertises.
     # Closed check on the float object (exact rational arithmetic on the doubles, tolerance 2^-40): a configuration that reshapes the table must keep rows and orders together.
     try:
